@@ -1,11 +1,10 @@
 """C04 — run-to-quiescence; same outcome on any executor."""
 import simgen, oracles
-from props import simprops, poolprops, injprops, chanprops
+from props import simprops, poolprops, injprops, chanprops, confprops
 
 HARNESS = ("simh", "atomh")
-TRUSTED = ["the work-stealing / parking protocol of the multi-threaded executor (pool_manager.rs, mt_executor.rs, injector.rs, st3, parking) is NOT modelled: it is exercised only through real runs on 2..16 threads whose outcome must equal the model's; seeded delays (yield / sleep up to 300 us) at 15 protocol points of mt_executor.rs and pool_manager.rs (hooks nexosim::verif, cfg nexosim_verif) perturb the parking / idle hand-off in the delayed-executors part; the barrier protocol itself is modelled in Pool.v",
-           "schedule independence (confluence) is proved only as computed instances (c04_confluent_instance, c07_nonvacuous, c16 example); in general it is checked by comparing executors"]
-TRUSTED = TRUSTED + poolprops.TRUSTED + injprops.TRUSTED + chanprops.TRUSTED
+TRUSTED = ["the work-stealing / parking protocol of the multi-threaded executor (pool_manager.rs, mt_executor.rs, injector.rs, st3, parking) is NOT modelled: it is exercised only through real runs on 2..16 threads whose outcome must equal the model's; seeded delays (yield / sleep up to 300 us) at 15 protocol points of mt_executor.rs and pool_manager.rs (hooks nexosim::verif, cfg nexosim_verif) perturb the parking / idle hand-off in the delayed-executors part; the barrier protocol itself is modelled in Pool.v"]
+TRUSTED = TRUSTED + poolprops.TRUSTED + injprops.TRUSTED + chanprops.TRUSTED + confprops.TRUSTED
 ASSUMPTIONS = ["handlers await only port operations; DAG topologies (no schedule-dependent stall)"]
 ORACLES = (oracles.o_harness, oracles.o_exactly_once, oracles.o_time)
 
@@ -19,6 +18,7 @@ def tie(rep, tier, rng, model_ok):
     poolprops.run(rep, tier, "C04")
     injprops.run(rep, tier, rng, model_ok)
     chanprops.run(rep, tier)
+    confprops.run(rep, tier, rng, model_ok)
     a = simprops.corpus_cases("C04") + [simgen.gen_net(rng) for _ in range(250 if q else 6000)]
     b = [simgen.gen_multi(rng) for _ in range(150 if q else 4000)]
     w = [simgen.gen_wide(rng) for _ in range(6 if q else 60)]
@@ -36,6 +36,6 @@ def tie(rep, tier, rng, model_ok):
 
 def replay(rep, path, model_ok):
     import json
-    if chanprops.replay(json.load(open(path))) or poolprops.replay(json.load(open(path))):
+    if chanprops.replay(json.load(open(path))) or poolprops.replay(json.load(open(path))) or confprops.replay(json.load(open(path))):
         return
     simprops.replay(rep, path, model_ok)
